@@ -403,7 +403,7 @@ def concurrent_history(ctx, rng, kind, inj):
         except S.Deadlock as e:
             ctx.violation(f"cache-deadlock:{kind}", str(e), case)
             return
-        except S.StepLimit as e:
+        except (S.StepLimit, S.Stall) as e:
             ctx.mark_inconclusive(str(e))
             return
         finally:
